@@ -36,7 +36,11 @@ structure Acc where
   ok : Bool := true
 
 def stepAcc (a : Acc) : Ev → Acc
-  | .register f => { a with regs := a.regs + 1, causeInGen := false, ok := a.ok && f && a.regs == a.oks }
+  -- `Connected()` is true in a REGISTER handler "while no disconnect has begun": if the link dropped while Connect was
+  -- still on its way to dispatching REGISTER (a cause since the call, or this connection's DISCONNECTED already
+  -- delivered), the flag may be false - the property leaves the relative order of the two events open in that case
+  | .register f => { a with regs := a.regs + 1, causeInGen := false,
+                            ok := a.ok && (f || a.causeInGen || a.discs > a.regs) && a.regs == a.oks }
   | .connectOk => { a with oks := a.oks + 1, ok := a.ok && a.regs == a.oks + 1 }
   | .connected f => { a with ok := a.ok && (f || a.causeInGen) }
   | .connectCall => { a with calls := a.calls + 1 }
@@ -45,7 +49,10 @@ def stepAcc (a : Acc) : Ev → Acc
   -- newer connection's REGISTER is already in the history, or a Connect call is in flight (it sets the flag
   -- before it dispatches REGISTER). This is `Props.C06.disconnected_flag`: flag = true only if a later Connect succeeded.
   | .disconnected f => { a with discs := a.discs + 1,
-                                ok := a.ok && (!f || a.discs + 1 < a.regs || a.regs + a.errs < a.calls) && a.discs < a.regs }
+                                ok := a.ok && (!f || a.discs + 1 < a.regs || a.regs + a.errs < a.calls) &&
+                                  -- after its REGISTER - or before it, while the Connect call that made the connection
+                                  -- is still in flight (it has not dispatched REGISTER yet)
+                                  (a.discs < a.regs || (a.discs == a.regs && a.oks + a.errs < a.calls)) }
   | .cause => { a with causeInGen := true }
   | .againOk => { a with ok := false }
   | .dead => { a with ok := false }
